@@ -4,12 +4,13 @@
 (* (environment variable C11_OUT).  harness/c11_offset.py renders each row    *)
 (* (leaf -> identifier, "brk" -> list display, "bare" -> binary operator /    *)
 (* comparison chain, "pre" -> unary minus, "post" -> call; gap columns ->     *)
-(* spaces, gap line break -> backslash continuation outside brackets,         *)
+(* spaces, wrap "pars" -> own grouping parentheses, gap line break ->          *)
+(* backslash continuation outside brackets,                                   *)
 (* comment + newline or newline inside), replays it through the public        *)
 (* put_src(action='offset') and OffsetTrace.tla judges the outcome.           *)
 EXTENDS OffsetCore, Json, IOUtils, SequencesExt
 
-CONSTANTS GenNodes, GenLines, GenCols
+CONSTANTS GenNodes, GenLines, GenCols, GenWrapNodes   \* wrapped nodes only in trees <= GenWrapNodes
 
 VARIABLE x
 
@@ -36,8 +37,12 @@ Conc(T) == \A k \in 1..T.n :
 
 Kinds == {"tok", "brk", "bare", "pre", "post"}
 
+(* at most one node (not the root) in its own pair of grouping parentheses    *)
+Wraps(m) == {f \in [1..m -> {"none", "pars"}] : f[1] = "none" /\ Cardinality({k \in 1..m : f[k] = "pars"}) <= (IF m <= GenWrapNodes THEN 1 ELSE 0)}
+
 Trees == UNION {
-  { T \in [n : {m}, par : {f \in [1..m -> 0..(m - 1)] : ValidPar(m, f)}, kind : [1..m -> Kinds], sep : [1..m -> BOOLEAN]] :
+  { T \in [n : {m}, par : {f \in [1..m -> 0..(m - 1)] : ValidPar(m, f)}, kind : [1..m -> Kinds], sep : [1..m -> BOOLEAN],
+           wrap : Wraps(m)] :
       Conc(T) } : m \in 1..GenNodes }
 
 Breaks(G) == Cardinality({i \in DOMAIN G : Len(G[i]) > 1})
@@ -51,7 +56,7 @@ Splices(G) == {s \in UNION {{<<gi, p, q, i>> : p \in Pts(G[gi]), q \in Pts(G[gi]
 
 RowsOf(T) ==
   LET I == MkInst(T) IN
-  { [n |-> T.n, par |-> T.par, kind |-> T.kind, sep |-> T.sep, gaps |-> G, sp |-> SetToSeq(Splices(G))] :
+  { [n |-> T.n, par |-> T.par, kind |-> T.kind, sep |-> T.sep, wrap |-> T.wrap, gaps |-> G, sp |-> SetToSeq(Splices(G))] :
       G \in {G \in GapSets(Len(I.A) - 1) : OnGrid(Scan(I, G), GenLines, GenCols) /\ Len(G) > 0} }
 
 Rows == UNION {RowsOf(T) : T \in Trees}
